@@ -291,11 +291,17 @@ Definition committed_inv (c : cfg) (i : invr) : invr :=
 Definition find_decls (t : tree) (dir : fpath) : list fpath :=
   map fst (filter (fun e => is_decl_name (last (fst e) [])) (children t dir)).
 
-(** fs.rs:307-314, 222-243 get_inventory -> get_inventory_by_path -> parse_inventory (1126-1162; the
-    sidecar is not consulted): NotFound when the object root does not exist *)
+(** is_object_root (fs.rs): some regular file in the directory starts with 0=ocfl_object_ *)
+Definition is_object_rootb (t : tree) (p : fpath) : bool :=
+  existsb (fun e => match snd e with File _ => starts_with decl_prefix (last (fst e) []) | Dir => false end)
+          (children t p).
+
+(** fs.rs:232-264 get_inventory -> get_inventory_by_path -> parse_inventory (the sidecar is not consulted).  Since
+    01aa490 the path holds an object only if it is a directory with a 0=ocfl_object_* file or an inventory file:
+    an empty directory (left by a fault while the staged object was being created) is NotFound *)
 Definition get_inventory (c : cfg) (root : fpath) : M invr :=
   do t <- get_tree ;;
-  if negb (exists_at t root) then throw ENotFound
+  if negb (is_dir t root && (is_object_rootb t root || exists_at t (root ++ [c_inv c]))) then throw ENotFound
   else match read_file t (root ++ [c_inv c]) with
        | Some (CInv k vs sp man dups) => ret (mkInv k vs sp man dups)
        | _ => throw ECorrupt
@@ -382,11 +388,6 @@ Definition write_new_version (c : cfg) (i : invr) : M unit :=
      end)
   | _, _ => throw (EFs ENOENT)
   end.
-
-(** is_object_root (fs.rs): some regular file in the directory starts with 0=ocfl_object_ *)
-Definition is_object_rootb (t : tree) (p : fpath) : bool :=
-  existsb (fun e => match snd e with File _ => starts_with decl_prefix (last (fst e) []) | Dir => false end)
-          (children t p).
 
 (** fs.rs:1139-1147 contains_object_root: WalkDir min_depth(2) finds a regular file named 0=ocfl_object_* *)
 Definition contains_object_rootb (t : tree) (p : fpath) : bool :=
